@@ -123,4 +123,13 @@ def firstFailure (S : Spec) (L : Layout) : String :=
     | some (.body b, i) => s!"item:{i}:body:{b.pins.map (·.1)}"
     | none => "none"
 
+/-- every failing item as `index:kind:f|s` (f = fixed-size item), for the structural keys of the replay files
+    (diagnostic only; the verdict is `checkPos`) -/
+def failures (S : Spec) (L : Layout) : List String :=
+  (S.items.zipIdx).filterMap fun it =>
+    if it.1.check L then none else
+    match it.1 with
+    | .hint h => some s!"{it.2}:hint:{if h.fixed then "f" else "s"}"
+    | .body b => some s!"{it.2}:body:{if b.stretch then "s" else "f"}"
+
 end Lcapy.Layout
